@@ -25,6 +25,8 @@ EXPLANATION = (
     'C11.RECOVER: a complete element that the message parser rejects is removed by exactly its own length (nothing of the message behind it is '
     'lost). C02.AUX: the scan depends on the buffer text alone; any cached scan attribute must be re-initialised after every truncation on every '
     'path (a stale resume offset makes delivery depend on where the stream was cut).'
+    " C02.TRUTHY: if the framing loop tests the parsed message for truthiness, no message class may define __bool__/__len__ (a message that is falsy - e.g. one without children - would be discarded as 'no message')."
+    " C02.FIND: the scan for a complete element is evaluated on 22 constant buffer contents (quotes and '>' in character data and attribute values, comments, CDATA, incomplete elements; ElementTree.fromstring on a constant is folded with the standard library's parser): it must hand exactly the first well-formed prefix to the message parser and report its end, or nothing while the element is incomplete - no '>' candidate may be passed over. C02.OWN: two connection objects of every transport class, constructed one after the other in one interpreter state (parameter defaults evaluated once, as Python does), never share a receive buffer."
 )
 NOT_DECIDED = "that the 'parse every >-terminated prefix' test is right for every XML spelling and partition (expat's behaviour on prefixes)."
 ASSUMPTIONS = ["latin-1 decoding is total and byte-wise", "StringIO.write appends when the stream is never repositioned (checked: no seek/read)"]
@@ -178,7 +180,17 @@ def rule_aux(ctx):
 # a rejected complete element must be removed by exactly its own length, or characters of the message behind it are lost
 IMPORTS = [('C11', 'C11.RECOVER')]
 
+def rule_find(ctx):
+    B.check_find(ctx, "C02.FIND")
+
+
+def rule_own(ctx):
+    B.check_own_buffer(ctx, "C02.OWN")
+
+
 RULES = [
+    ("C02.OWN", rule_own, "every connection object constructs its own receive buffer (no buffer shared through a default argument / class attribute)"),
+    ("C02.FIND", rule_find, "the scan for a complete element, on constant buffers: exactly the first well-formed prefix is parsed; no '>' candidate is passed over"),
     ("C02.LOOP", rule_loop, "receive loops: read -> exactly one append(chunk) -> exactly one process(consumer); exit only on empty read"),
     ("C02.DECODE", rule_decode, "wire codec is a total single-byte codec"),
     ("C02.APPEND", rule_append, "append / data setter / getter / length are exact"),
